@@ -1,4 +1,4 @@
-import YardlModel.Names
+import YardlProofs.Case
 import YardlGenerated.Pipeline
 
 /-!
@@ -17,14 +17,16 @@ Proved here, over the reserved-name tables regenerated from the current source (
 * `tables_cover_the_languages` — the tables contain the words that broke generated code when they were
   not escaped (C++ alternative tokens such as `not_eq`, Python keywords and builtins used by the
   generated code, MATLAB keywords).
-The derivation applies the table to the *converted* name (`checks/c08.py` compares `ident` with the
-real functions on every reserved word and on random names).
+The derivation applies the table to the *converted* name; the conversions themselves (`ToSnakeCase`, `ToUpperSnakeCase`, `ToPascalCase`)
+are modelled in `YardlModel/Case.lean` (`checks/c08.py` compares conversion and escaping with the real functions on every reserved
+word, exhaustively on short names over a small alphabet, and on random names). Tables are lists of characters (`*_codes`, regenerated
+next to the string tables by the same translator): kernel evaluation over `String` takes minutes for tables of this size.
 -/
 
 namespace Yardl.C08
-open Yardl.Names Yardl.Generated
+open Yardl.Case Yardl.Generated
 
-theorem derived_identifier_never_reserved (reserved : List String) (suffix cased : String)
+theorem derived_identifier_never_reserved (reserved : List (List Nat)) (suffix cased : List Nat)
     (h : ∀ w ∈ reserved, (w ++ suffix) ∉ reserved) : ident reserved suffix cased ∉ reserved := by
   unfold ident
   by_cases hc : reserved.contains cased = true
@@ -33,44 +35,135 @@ theorem derived_identifier_never_reserved (reserved : List String) (suffix cased
   · simp only [hc]
     simpa using hc
 
-theorem cpp_suffixes_escape :
-    (∀ w ∈ reserved_cpp, (w ++ "_field") ∉ reserved_cpp) ∧ (∀ w ∈ reserved_cpp, (w ++ "_value") ∉ reserved_cpp) ∧
-    (∀ w ∈ reserved_cpp, (w ++ "_Type") ∉ reserved_cpp) := by
+/-- a suffix that no reserved word ends with escapes every reserved word (a linear check of the table instead of a quadratic one) -/
+theorem suffix_escapes (reserved : List (List Nat)) (suffix : List Nat) (h : ∀ w ∈ reserved, stripSuffix suffix w = none) :
+    ∀ w, (w ++ suffix) ∉ reserved := by
+  intro w hm
+  have := h _ hm
+  rw [stripSuffix_append] at this
+  cases this
+
+theorem no_reserved_word_ends_with_a_suffix :
+    (∀ w ∈ reserved_cpp_codes, stripSuffix (str "_field") w = none) ∧ (∀ w ∈ reserved_cpp_codes, stripSuffix (str "_value") w = none) ∧
+    (∀ w ∈ reserved_cpp_types_codes, stripSuffix (str "_Type") w = none) ∧
+    (∀ w ∈ reserved_python_codes, stripSuffix [us] w = none) ∧ (∀ w ∈ reserved_matlab_codes, stripSuffix [us] w = none) := by
   decide +kernel
 
-theorem cpp_type_suffix_escapes : ∀ w ∈ reserved_cpp_types, (w ++ "_Type") ∉ reserved_cpp_types := by decide +kernel
+theorem cpp_suffixes_escape :
+    (∀ w ∈ reserved_cpp_codes, (w ++ str "_field") ∉ reserved_cpp_codes) ∧ (∀ w ∈ reserved_cpp_codes, (w ++ str "_value") ∉ reserved_cpp_codes) :=
+  ⟨fun w _ => suffix_escapes _ _ no_reserved_word_ends_with_a_suffix.1 w, fun w _ => suffix_escapes _ _ no_reserved_word_ends_with_a_suffix.2.1 w⟩
 
-/-- the names the generated C++ declares itself next to the model's types are escaped as type names (the table is regenerated
-    from `reservedNames` ∪ `reservedTypeNames`) -/
-theorem cpp_types_table_covers : (∀ w ∈ reserved_cpp, w ∈ reserved_cpp_types) ∧ "Version" ∈ reserved_cpp_types := by decide +kernel
+theorem cpp_type_suffix_escapes : ∀ w ∈ reserved_cpp_types_codes, (w ++ str "_Type") ∉ reserved_cpp_types_codes :=
+  fun w _ => suffix_escapes _ _ no_reserved_word_ends_with_a_suffix.2.2.1 w
 
-theorem python_suffix_escapes : ∀ w ∈ reserved_python, (w ++ "_") ∉ reserved_python := by decide +kernel
+/-- the names the generated C++ declares itself next to the model's types are escaped as type names (the table is
+    `reservedNames` ++ `reservedTypeNames`, regenerated) -/
+theorem cpp_types_table_covers : (∀ w ∈ reserved_cpp_codes, w ∈ reserved_cpp_types_codes) ∧ str "Version" ∈ reserved_cpp_types_codes := by
+  refine ⟨fun w h => ?_, ?_⟩
+  · unfold reserved_cpp_types_codes; exact List.mem_append_left _ h
+  · unfold reserved_cpp_types_codes; apply List.mem_append_right; decide +kernel
 
-theorem matlab_suffix_escapes : ∀ w ∈ reserved_matlab, (w ++ "_") ∉ reserved_matlab := by decide +kernel
+theorem python_suffix_escapes : ∀ w ∈ reserved_python_codes, (w ++ [us]) ∉ reserved_python_codes :=
+  fun w _ => suffix_escapes _ _ no_reserved_word_ends_with_a_suffix.2.2.2.1 w
+
+theorem matlab_suffix_escapes : ∀ w ∈ reserved_matlab_codes, (w ++ [us]) ∉ reserved_matlab_codes :=
+  fun w _ => suffix_escapes _ _ no_reserved_word_ends_with_a_suffix.2.2.2.2 w
 
 theorem tables_cover_the_languages :
     (∀ w ∈ ["not_eq", "and_eq", "or_eq", "xor_eq", "bitand", "bitor", "compl", "class", "namespace", "template", "new", "delete", "float", "double", "int", "std", "yardl"],
-      w ∈ reserved_cpp) ∧
-    (∀ w ∈ ["None", "True", "False", "and", "class", "def", "lambda", "not", "float", "int", "bool"], w ∈ reserved_python) ∧
-    (∀ w ∈ ["end", "function", "classdef", "if", "for", "while", "switch", "case", "otherwise", "return"], w ∈ reserved_matlab) := by
+      str w ∈ reserved_cpp_codes) ∧
+    (∀ w ∈ ["None", "True", "False", "and", "class", "def", "lambda", "not", "float", "int", "bool"], str w ∈ reserved_python_codes) ∧
+    (∀ w ∈ ["end", "function", "classdef", "if", "for", "while", "switch", "case", "otherwise", "return"], str w ∈ reserved_matlab_codes) := by
   decide +kernel
 
 /-- names the generated code itself binds where a member of the model would be bound: the modules the generated Python imports
     and the `self` of its methods; the parameter `other` of the generated C++ comparison operators -/
 theorem tables_cover_generated_code_names :
-    (∀ w ∈ ["self", "yardl", "np", "npt", "typing", "datetime", "enum", "types"], w ∈ reserved_python) ∧ "other" ∈ reserved_cpp := by
+    (∀ w ∈ ["self", "yardl", "np", "npt", "typing", "datetime", "enum", "types"], str w ∈ reserved_python_codes) ∧ str "other" ∈ reserved_cpp_codes := by
   decide +kernel
 
-theorem cpp_field_never_reserved (snake : String) : ident reserved_cpp "_field" snake ∉ reserved_cpp :=
+theorem cpp_field_never_reserved (snake : List Nat) : ident reserved_cpp_codes (str "_field") snake ∉ reserved_cpp_codes :=
   derived_identifier_never_reserved _ _ _ cpp_suffixes_escape.1
 
-theorem cpp_type_never_reserved (name : String) : ident reserved_cpp_types "_Type" name ∉ reserved_cpp_types :=
+theorem cpp_type_never_reserved (name : List Nat) : ident reserved_cpp_types_codes (str "_Type") name ∉ reserved_cpp_types_codes :=
   derived_identifier_never_reserved _ _ _ cpp_type_suffix_escapes
 
-theorem python_member_never_reserved (cased : String) : ident reserved_python "_" cased ∉ reserved_python :=
+theorem python_member_never_reserved (cased : List Nat) : ident reserved_python_codes [us] cased ∉ reserved_python_codes :=
   derived_identifier_never_reserved _ _ _ python_suffix_escapes
 
-theorem matlab_member_never_reserved (cased : String) : ident reserved_matlab "_" cased ∉ reserved_matlab :=
+theorem matlab_member_never_reserved (cased : List Nat) : ident reserved_matlab_codes [us] cased ∉ reserved_matlab_codes :=
   derived_identifier_never_reserved _ _ _ matlab_suffix_escapes
+
+/-! ### distinct names stay distinct (`YardlModel/Case.lean`: the case conversions of `formatting.go` and the escaping on top of them)
+
+The validator rejects two members of one record / protocol / enum whose *converted* names are equal (454b119). What is left to show is
+that escaping reserved words does not merge two different converted names, and what the conversion can merge at all. -/
+
+/-- the conversion to snake_case only moves underscores: it keeps the letters and digits of the name, in order, in lower case -/
+theorem snake_case_keeps_the_letters (s : List Nat) : strip (snake s) = (strip s).map toLo := strip_snake s
+
+/-- so two validator-accepted names (letters and digits) collide after conversion only if they differ at most in the case of letters -/
+theorem same_snake_case_only_by_capitalisation {a b : List Nat} (ha : alnum a) (hb : alnum b) (h : snake a = snake b) :
+    a.map toLo = b.map toLo := snake_eq_imp_lower_eq ha hb h
+
+/-- Python and MATLAB members (fields, computed fields: suffix `_` on the snake_case name): distinct converted names get distinct
+    identifiers, for **every** reserved table — a converted name never ends in `_` -/
+theorem underscore_suffix_keeps_members_distinct (R : List (List Nat)) {a b : List Nat} (ha : alnum a) (hb : alnum b)
+    (hane : a ≠ []) (hbne : b ≠ []) (h : ident R [us] (snake a) = ident R [us] (snake b)) : snake a = snake b :=
+  ident_underscore_injective R _ _ (snake_last ha hane) (snake_last hb hbne) h
+
+/-- Python and MATLAB enum values (suffix `_` on the UPPER_SNAKE_CASE name) -/
+theorem underscore_suffix_keeps_enum_values_distinct (R : List (List Nat)) {a b : List Nat} (ha : alnum a) (hb : alnum b)
+    (hane : a ≠ []) (hbne : b ≠ []) (h : ident R [us] (upperSnake a) = ident R [us] (upperSnake b)) : upperSnake a = upperSnake b :=
+  ident_underscore_injective R _ _ (upperSnake_last ha hane) (upperSnake_last hb hbne) h
+
+/-- **the defect found by trying to prove the same for C++ fields** (suffix `_field`, plain rule): the fields `class` and `classField`
+    of one record both became `class_field` — for every table that reserves `class` and not `class_field` (fixed in 017b1ad) -/
+theorem cpp_plain_field_suffix_collided (R : List (List Nat)) (h1 : str "class" ∈ R) (h2 : str "class_field" ∉ R) :
+    ident R (str "_field") (snake (str "class")) = ident R (str "_field") (snake (str "classField")) ∧
+    snake (str "class") ≠ snake (str "classField") := by
+  have e1 : snake (str "class") = str "class" := by decide
+  have e2 : snake (str "classField") = str "class" ++ str "_field" := by decide
+  rw [e1, e2]
+  have e3 : str "class" ++ str "_field" = str "class_field" := by decide
+  refine ⟨ident_collides R _ _ h1 (by rw [e3]; exact h2), by decide⟩
+
+/-- C++ fields after the repair (`needsFieldSuffix`: a name is suffixed when it is reserved or already looks like a suffixed name):
+    distinct converted names get distinct identifiers, for every reserved table -/
+theorem cpp_fields_stay_distinct (R : List (List Nat)) (x y : List Nat)
+    (h : identRec R (str "_field") x = identRec R (str "_field") y) : x = y :=
+  identRec_injective R _ x y (by decide) h
+
+/-- … and still never a reserved word: no reserved word of the regenerated table ends in `_field` -/
+theorem cpp_field_rec_never_reserved (x : List Nat) :
+    identRec reserved_cpp_codes (str "_field") x ∉ reserved_cpp_codes := by
+  have hR := no_reserved_word_ends_with_a_suffix.1
+  intro hm
+  unfold identRec at hm
+  by_cases hn : needs reserved_cpp_codes (str "_field") x = true
+  · simp only [hn, if_true] at hm
+    have := hR _ hm
+    rw [stripSuffix_append] at this
+    cases this
+  · simp only [hn] at hm
+    exact hn (needs_of_reserved _ _ _ hm)
+
+/-- PascalCase (C++ computed fields, enum values `k…`, protocol methods) is injective on member names -/
+theorem pascal_case_keeps_members_distinct {a b : List Nat} (ha : alnum a) (hb : alnum b)
+    (ha0 : ∃ c r, a = c :: r ∧ isLo c = true) (hb0 : ∃ c r, b = c :: r ∧ isLo c = true) (h : pascal a = pascal b) : a = b :=
+  pascal_injective ha hb ha0 hb0 h
+
+/-- the methods the generated C++ protocol classes derive from two steps coincide exactly when one PascalCase name is the other's
+    followed by `Impl` — the recorded open finding (steps `foo` and `fooImpl`), with its witness -/
+theorem cpp_step_methods_collide_iff (a b : List Nat) :
+    str "Write" ++ pascal a ++ str "Impl" = str "Write" ++ pascal b ↔ pascal b = pascal a ++ str "Impl" :=
+  cpp_write_impl_collision_iff a b
+
+theorem cpp_step_methods_collide_witness :
+    (cppWriterMethods (str "foo") false)[1]? = (cppWriterMethods (str "fooImpl") false)[0]? := by decide
+
+/-- the hypotheses of the theorems above are met by ordinary names -/
+example : alnum (str "classField") ∧ str "classField" ≠ [] ∧ (∃ c r, str "classField" = c :: r ∧ isLo c = true) := by
+  refine ⟨by unfold alnum; decide, by decide, ⟨99, str "lassField", by decide, by decide⟩⟩
 
 end Yardl.C08
